@@ -52,3 +52,27 @@ target(P + "_check_out_of_date_tree", result=Tup(Opt(INT), REV, Opt(INT)), modif
 
 undecided("update and pull in a checkout (BzrBranch.update, WorkingTree.update): tree-level merge through external code")
 undecided("histories of several checkouts: only the per-commit contracts are decided")
+
+# ---- BzrBranch.update (a checkout's branch is brought up to its master): with a master the local tip becomes the master's tip, by one
+#      overwriting pull under the branch's write lock; without a master nothing changes; the old tip is handed back exactly when it was
+#      pivoted out (is not an ancestor of the new tip)
+IsAnc = ufunc("IsAnc", REV, REV, BOOL)
+MasterB = ufunc("MasterB", Opt(BR))
+cls("BzrBranch", fields={"repository": ANY})
+assumed("self.lock_write", pure=True, raises={"Exception": None})
+assumed("self.get_master_branch", pure=True, returns=lambda c: MasterB(), raises={"Exception": None})
+assumed("self.last_revision", pure=True, no_raise=True, returns=lambda c: c.g.local_tip)
+assumed("self.pull", modifies=["g.local_tip", "g.local_moves"], raises={"Exception": "unchanged"},
+        requires=lambda c: And(eq(c.args[0], MasterB().val), truthy(c.kw["overwrite"])),
+        ensures=lambda c: c.g.local_tip == c.g.master_tip,
+        note="pull(master, overwrite=True): the local branch ends at the master's tip whatever it was before (InterBranch.pull: not under contract here)")
+assumed("self.repository.get_graph().is_ancestor", pure=True, returns=lambda c: IsAnc(c.args[0], c.args[1]), raises={"Exception": None})
+target("breezy/bzr/branch.py::BzrBranch.update", params=dict(possible_transports=ANY), result=Opt(REV), modifies=["g.local_tip", "g.local_moves"],
+       ensures={"local_equals_master_afterwards": lambda c: If(MasterB().is_none, c.g.local_tip == c.old.g.local_tip, c.g.local_tip == c.g.master_tip),
+                "the_old_tip_is_returned_iff_pivoted_out": lambda c: If(
+                    And(Not(MasterB().is_none), Not(IsAnc(c.old.g.local_tip, c.g.local_tip))),
+                    c.result == Opt(REV).some(c.old.g.local_tip), c.result.is_none),
+                "the_master_is_never_changed": lambda c: c.g.master_tip == c.old.g.master_tip},
+       raises={"Exception": lambda c: c.g.master_tip == c.old.g.master_tip},
+       canary=lambda c: c.result.is_none,
+       note="update in a checkout leaves the local branch equal to the master")
